@@ -20,7 +20,7 @@ func init() {
 		Rules: []RuleDef{
 			{Name: "C17-KIND", Floor: 6, Doc: "every reflect.Value produced inside a switch over targetType.Kind() is converted to targetType before it is returned", Run: c17Run},
 			{Name: "C17-EXH", Floor: 4, Doc: "result conversion has numeric cases for sized ints, unsigned ints and float32; parameter conversion's default arm returns an error", Run: nop},
-			{Name: "C17-NARROW", Floor: 5, Doc: "narrowing conversions in utils' generic converters are dominated by a range check with an error arm", Run: nop},
+			{Name: "C17-NARROW", Floor: 3, Doc: "narrowing conversions in utils' generic converters are dominated by a range check with an error arm", Run: nop},
 		},
 	})
 }
